@@ -1,7 +1,7 @@
 (* C17 — property theorems only: each closed by [exact] of a lemma proved elsewhere.
    Third-party code appears as universally quantified functions (the Section variables of
    Misc/Prov.v): clearsign_decode, check_sig, sha256, yaml_meta_ok, yaml_sums. *)
-From Coq Require Import List String Bool.
+From Coq Require Import List String Ascii Bool.
 From Helm Require Import Common.Assoc Misc.Prov Misc.ProvProofs.
 Import ListNotations.
 Local Open Scope string_scope.
@@ -132,3 +132,47 @@ Example C17_example_rejects :
   /\ ex_verify [8] "PROV" "a-1.tgz" "d1" = VErr ESig /\ ex_verify [7] "PRO" "a-1.tgz" "d1" = VErr EDecode.
 Proof. exact ex_rejects. Qed.
 Print Assumptions C17_example_rejects.
+
+(* A chart signed (messageBlock + ClearSign, as `helm package --sign` does) and then verified
+   against a keyring that holds the signing key's public half always passes, with the digest of
+   the archive as FileHash.  Hypotheses, all about library code: clearsign.Decode returns clean
+   text (no blank/CR before a line feed, final line feed) unchanged together with the signature;
+   a signature made with a key checks against a keyring containing it; the YAML printer's output
+   for the sums parses back to that one entry.  Conditions on the printed texts: the metadata
+   YAML and the sums YAML are clean and do not contain the separator "\n...\n" (nosep_before also
+   excludes an occurrence straddling the separator that follows the metadata). *)
+Theorem C17_sign_then_verify :
+  forall (keyring sigbody signer key : Type)
+         (clearsign_decode : string -> option (string * sigbody))
+         (check_sig : keyring -> string -> sigbody -> option signer)
+         (sha256 : string -> string) (yaml_meta_ok : string -> bool)
+         (yaml_sums : string -> option (list (string * string)))
+         (sign : key -> string -> sigbody) (clearsign_encode : string -> sigbody -> string)
+         (sums_yaml : string -> string -> string) (public_of : keyring -> key -> option signer),
+    (forall msg sg, clean msg = true -> clearsign_decode (clearsign_encode msg sg) = Some (msg, sg)) ->
+    (forall kr k by_ msg, public_of kr k = Some by_ -> clean msg = true -> check_sig kr (canon msg) (sign k msg) = Some by_) ->
+    forall (kr : keyring) (k : key) (by_ : signer) (meta name archive : string),
+      public_of kr k = Some by_ ->
+      clean meta = true -> clean (sums_yaml name ("sha256:" ++ sha256 archive)) = true ->
+      nosep_before meta = true -> nosep (sums_yaml name ("sha256:" ++ sha256 archive)) = true ->
+      yaml_meta_ok meta = true ->
+      yaml_sums (sums_yaml name ("sha256:" ++ sha256 archive)) = Some [(name, "sha256:" ++ sha256 archive)] ->
+      verify keyring sigbody signer clearsign_decode check_sig sha256 yaml_meta_ok yaml_sums kr
+             (clear_sign sigbody key sha256 sign clearsign_encode sums_yaml k meta name archive) name archive
+      = VOk by_ ("sha256:" ++ sha256 archive).
+Proof. exact sign_then_verify. Qed.
+Print Assumptions C17_sign_then_verify.
+
+(* the message block splits into exactly the printed metadata and the printed sums *)
+Theorem C17_block_splits :
+  forall m s, nosep_before m = true -> nosep s = true -> split_sep DOTS (m ++ DOTS ++ s) = [m; s].
+Proof. exact split_block. Qed.
+Print Assumptions C17_block_splits.
+
+Example C17_sign_then_verify_example :
+  verify (list Ascii.ascii) Ascii.ascii Ascii.ascii sv_decode sv_check (fun a => a) (fun _ => true) sv_yaml_sums ["K"%char]
+         (clear_sign Ascii.ascii Ascii.ascii (fun a => a) (fun k _ => k) sv_encode sv_sums_yaml "K"%char sv_meta "a-1.0.0.tgz" "d1")
+         "a-1.0.0.tgz" "d1"
+  = VOk "K"%char "sha256:d1".
+Proof. exact sign_then_verify_example. Qed.
+Print Assumptions C17_sign_then_verify_example.
